@@ -58,6 +58,9 @@ var c17KeyVariants = []c17KeyVariant{
 var c17Caps = []string{"\x00absent", "4", "6", "46", "B", ""}
 
 func c17Addr(opts map[string]string, viaParser bool) (*router_address.RouterAddress, error) {
+	if c17Prebuilt != nil {
+		return c17Prebuilt(), nil
+	}
 	if c17Literal {
 		// assembled field by field (every field is exported) with nothing but the options: what the accessors
 		// answer is a function of the options alone
@@ -68,13 +71,13 @@ func c17Addr(opts map[string]string, viaParser bool) (*router_address.RouterAddr
 		return &router_address.RouterAddress{TransportOptions: m}, nil
 	}
 	if !viaParser {
-		return router_address.NewRouterAddress(5, time.Time{}, "NTCP2", opts)
+		return router_address.NewRouterAddress(5, time.Time{}, c17Style, opts)
 	}
 	var m refmodel.Mapping
 	for k, v := range opts {
 		m = append(m, refmodel.Pair{K: []byte(k), V: []byte(v)})
 	}
-	a := refmodel.RouterAddress{Cost: 5, Style: []byte("NTCP2"), Options: m.Sorted()}
+	a := refmodel.RouterAddress{Cost: 5, Style: []byte(c17Style), Options: m.Sorted()}
 	if c17WireOrder != nil {
 		a.Options = c17WireOrder(a.Options)
 	}
@@ -88,6 +91,13 @@ func c17Addr(opts map[string]string, viaParser bool) (*router_address.RouterAddr
 // c17WireOrder, when set, rearranges the pairs of the reference encoding before it is parsed (the parser
 // accepts any order; only the constructors sort). Set around single-threaded passes only.
 var c17WireOrder func(refmodel.Mapping) refmodel.Mapping
+
+// c17Style is the transport style of the addresses built by c17Addr; c17Prebuilt, when set, supplies the address to
+// evaluate (an address with a history). Both are changed around single-threaded passes only.
+var (
+	c17Style    = "NTCP2"
+	c17Prebuilt func() *router_address.RouterAddress
+)
 
 // c17Literal, when set, makes c17Addr assemble the address from its exported fields (options only). Set around
 // single-threaded passes only.
@@ -330,6 +340,81 @@ func runC17(r *core.Run) {
 		}
 	}
 	c17Literal = false
+	// edit histories: an address is queried (every accessor), then its options are replaced - in place, and on a copy
+	// of the struct - by another mapping; every clause is then evaluated against the NEW options. All ordered pairs of
+	// a 7-map menu (IPv4 / IPv6 / IPv4-mapped / hostname / no host; two ports), both construction paths.
+	{
+		menu := []map[string]string{
+			{"host": "10.1.2.3", "port": "4567", "caps": "4"}, {"host": "2001:db8::1", "port": "80", "caps": "6"}, {"host": "::ffff:10.1.2.3", "port": "1"},
+			{"host": "router.example.com", "port": "65535"}, {"port": "4567", "caps": "46"}, {"host": "1.2.3.4"}, {"host": "::1", "port": "0", "s": string(refmodel.Fill("sk", 32, 32)), "i": string(refmodel.Fill("sk", 16, 16))},
+		}
+		touch := func(ra *router_address.RouterAddress) {
+			core.Guard(func() {
+				ra.Host()
+				ra.Port()
+				ra.IPVersion()
+				ra.HasValidHost()
+				ra.HasValidPort()
+				ra.StaticKey()
+				ra.InitializationVector()
+				_ = ra.Network()
+				_ = ra.String()
+				_ = ra.Bytes()
+				ra.UDP()
+				ra.CapsString()
+				ra.HostString()
+				ra.PortString()
+			})
+		}
+		for i, m1 := range menu {
+			for j, m2 := range menu {
+				if i == j {
+					continue
+				}
+				for _, viaParser := range []bool{false, true} {
+					for _, how := range []string{"in-place", "struct-copy"} {
+						ra, err := c17Addr(m1, viaParser)
+						nm, err2 := data.GoMapToMapping(m2)
+						if err != nil || err2 != nil || ra == nil || nm == nil {
+							continue
+						}
+						touch(ra)
+						target := ra
+						if how == "struct-copy" {
+							cp := *ra
+							target = &cp
+						}
+						target.TransportOptions = nm
+						c17Prebuilt = func() *router_address.RouterAddress { return target }
+						c17Eval(r, m2, viaParser, "options-replaced-after-use["+how+"]", false)
+						c17Prebuilt = nil
+					}
+				}
+			}
+		}
+	}
+	// the static key / IV clauses under other transport styles: what the accessors answer is a function of the options
+	for _, st := range []string{"SSU2", "NTCP", "SSU", "ntcp2", "NTCP2 ", "X"} {
+		c17Style = st
+		for _, n := range []int{0, 15, 16, 17, 31, 32, 33} {
+			val := string(refmodel.Fill("sk", uint64(n), n))
+			for _, viaParser := range []bool{false, true} {
+				ra, err := c17Addr(map[string]string{"s": val, "i": val, "v": "2"}, viaParser)
+				if err != nil || ra == nil {
+					continue
+				}
+				r.Evaluations.Add(1)
+				_, e1 := ra.StaticKey()
+				_, e2 := ra.InitializationVector()
+				if (e1 == nil) != (n == 32) || (e2 == nil) != (n == 16) {
+					r.Violate("C17|statickey-length|transport-style", fmt.Sprintf("transport style %q, %d-byte values: StaticKey err=%v, InitializationVector err=%v", st, n, e1, e2), core.Case{Kind: "keylen", Args: map[string]string{"n": fmt.Sprint(n), "style": st, "parser": fmt.Sprint(viaParser)}})
+				}
+			}
+		}
+		c17Eval(r, map[string]string{"host": "10.1.2.3", "port": "4567"}, false, "style="+st, false)
+		c17Eval(r, map[string]string{"host": "::1", "port": "0"}, true, "style="+st, false)
+	}
+	c17Style = "NTCP2"
 	// large option sets (1..24 extra options around the well-known keys), through the constructor and through the
 	// parser in three wire orders: ascending, descending, and interleaved from both ends
 	{
